@@ -163,26 +163,45 @@ def judge_runs(ctx, recs, prefixes):
 
 
 def confirm(ctx, cases, recs, bad, prefixes, rerun):
-    """Re-run failing cases once; report those that fail again (same clause family)."""
+    """Re-run failing cases; report those that fail again (same clause family).  A report of the Go race detector is
+    conclusive by itself (it has no false positives) and is not re-run; runs under real concurrency (jitter) are
+    re-tried a few times because their schedule is not reproducible."""
     if not bad:
         return
     sel = bad[:8]
-    again = rerun([cases[i] for i, _, _ in sel])
-    bad2 = {j for j, _, _ in judge_runs(ctx, again, prefixes)}
     confirmed = 0
-    for j, (i, why, kf) in enumerate(sel):
-        if j in bad2:
-            k = ctx.known_match(kf)
-            if k:
-                ctx.known_hits[k["kf"]] = ctx.known_hits.get(k["kf"], 0) + 1
-                continue
-            ctx.report_bad(cases[i], why, kf, {"property": ctx.prop, "case": cases[i], "run": recs[i]["run"], "why": why, "seed": ctx.seed})
-            confirmed += 1
+
+    def report(i, why, kf):
+        k = ctx.known_match(kf)
+        if k:
+            ctx.known_hits[k["kf"]] = ctx.known_hits.get(k["kf"], 0) + 1
+            return 0
+        ctx.report_bad(cases[i], why, kf, {"property": ctx.prop, "case": cases[i], "run": recs[i]["run"], "why": why, "seed": ctx.seed})
+        return 1
+    pending = []
+    for i, why, kf in sel:
+        if any(w.startswith("outcome: race") for w in why):
+            confirmed += report(i, why, kf)
         else:
-            vlib.log("UNREPRODUCED %s case %d (%s): not a verdict" % (ctx.prop, i, why))
+            pending.append((i, why, kf))
+    for attempt in range(5):
+        if not pending:
+            break
+        again = rerun([cases[i] for i, _, _ in pending])
+        bad2 = {j for j, _, _ in judge_runs(ctx, again, prefixes)}
+        still = []
+        for j, (i, why, kf) in enumerate(pending):
+            if j in bad2:
+                confirmed += report(i, why, kf)
+            elif cases[i].get("kind") == "jitter":
+                still.append((i, why, kf))
+            else:
+                vlib.log("UNREPRODUCED %s case %d (%s): not a verdict" % (ctx.prop, i, why))
+        pending = still
+    for i, why, kf in pending:
+        vlib.log("UNREPRODUCED %s case %d (%s) in 5 re-runs: not a verdict" % (ctx.prop, i, why))
     ctx.extra["failing_cases_total"] = len(bad)
     if not confirmed and not ctx.known_hits:
-        # schedule-dependent failures may need the same seed: the re-run uses identical cases, so this is unexpected
         raise vlib.Infra("%s: %d judge failures, none reproduced" % (ctx.prop, len(bad)))
 
 
